@@ -176,7 +176,7 @@ func buildProposal(w *World, a propAbs, h, i, s *Party, parentID channel.ID, oth
 	case "extra":
 		assets = []channel.Asset{w.Asset, other}
 	}
-	if a.Bals == "ragged" && len(assets) == 1 {
+	if (a.Bals == "ragged" || a.Bals == "raggedlong") && len(assets) == 1 {
 		assets = append(assets, other)
 	}
 	// the receiver's parent holds I 9 / H 5 (I 4 / H 10 once the pending update of a busy parent is through); in a virtual
@@ -206,6 +206,9 @@ func buildProposal(w *World, a propAbs, h, i, s *Party, parentID channel.ID, oth
 		}
 		if a.Bals == "ragged" && x == 1 {
 			row = row[:len(row)-1]
+		}
+		if a.Bals == "raggedlong" && x == 1 {
+			row = append(row, big.NewInt(0))
 		}
 		al.Assets = append(al.Assets, as)
 		bid := wallet.BackendID(channel.TestBackendID)
@@ -262,6 +265,10 @@ func buildProposal(w *World, a propAbs, h, i, s *Party, parentID channel.ID, oth
 		peers = []map[wallet.BackendID]wire.Address{S}
 	case "SRX":
 		peers = []map[wallet.BackendID]wire.Address{S, R, X}
+	case "ER":
+		peers = []map[wallet.BackendID]wire.Address{{}, R}
+	case "SE":
+		peers = []map[wallet.BackendID]wire.Address{S, {}}
 	}
 	rnd := func(n byte) channel.ID { return channel.ID{0xee, n, 3} }
 	switch a.Kind {
